@@ -266,7 +266,12 @@ func freezeMenu(w *world.World, o menuOpts, withWipe bool) []world.Action {
 		acts = append(acts, nftFreezeMenu(w, accts)...)
 	}
 	if o.repeatControls {
-		for _, a := range [][]byte{uni.B0, uni.C1} {
+		// one account and one shard are enough (thorough: both): the code path is the same
+		reps := [][]byte{uni.B0}
+		if o.thorough {
+			reps = append(reps, uni.C1)
+		}
+		for _, a := range reps {
 			if o.shards < 2 && string(a) == string(uni.C1) {
 				continue
 			}
@@ -277,6 +282,9 @@ func freezeMenu(w *world.World, o menuOpts, withWipe bool) []world.Action {
 			}
 		}
 		for sh := 0; sh < o.shards; sh++ {
+			if sh > 0 && !o.thorough {
+				break
+			}
 			fn := vmcommon.BuiltInFunctionESDTUnPause
 			if spec.Paused(w, uint32(sh), tF) {
 				fn = vmcommon.BuiltInFunctionESDTPause
